@@ -88,9 +88,13 @@ def f_shadow(case):
     prog = case['prog']
     fixed = not any(g['kind'] == 'rand' for g in prog)
     gates = None
+    late = []
     if case['ckind'] == 'prog':
-        circ, gates = SO.build_circuit(N, prog, case.get('cls', 'CliffordCircuit'))
-        if fixed and case.get('compile'):
+        # the measurement circuit may still grow after the ClassicalShadow object has been created (it holds the circuit, not a copy)
+        k = len(prog) - (case.get('late', 0) % (len(prog) + 1)) if prog else 0
+        circ, gates = SO.build_circuit(N, prog[:k], case.get('cls', 'CliffordCircuit'))
+        late = prog[k:]
+        if fixed and case.get('compile') and not late:
             circ.compile()
     elif case['ckind'] == 'onsite':
         circ = pc.onsite_rcc(N); fixed = False
@@ -102,6 +106,13 @@ def f_shadow(case):
             return {'nt': False, 'labels': ['skip-odd-brickwall']}
         circ = pc.brickwall_rcc(N, case['depth']); fixed = False
     sh = pc.ClassicalShadow(S, circ)
+    for gd in late:
+        if gd['kind'] == 'rand':
+            circ.gate(*gd['qubits']); gates.append(None)
+        else:
+            g = C.gate_lib(gd); circ.take(g); gates.append(g)
+    if late and fixed and case.get('compile'):
+        circ.compile()
     snap = B.snapshot(S)
     rng.seed_all(case['seed'])
     snaps = list(sh.snapshots(case['n']))
@@ -132,7 +143,7 @@ def f_shadow(case):
             check(not any(np.shares_memory(a, b) for _, a in B.arrays_of(T) for _, b in B.arrays_of(snaps[j])), 'two snapshots share memory', 'snapshot-alias')
     r0 = case['state']['r']
     return {'nt': (r0 > 0 or any(x.startswith('-') for x in case['state']['rows'])) and case['n'] >= 1, 'labels': ['N=%d' % N, case['ckind'], 'fixed' if fixed else 'random', 'r=%d' % r0] + (
-        [case.get('cls', 'CliffordCircuit') + ('-compiled' if fixed and case.get('compile') else '')] if case['ckind'] == 'prog' else [])}
+        [case.get('cls', 'CliffordCircuit') + ('-compiled' if fixed and case.get('compile') else '')] + (['extended-after-construction'] if late else []) if case['ckind'] == 'prog' else [])}
 
 
 def st_shadow(hiN):
@@ -141,7 +152,7 @@ def st_shadow(hiN):
         prog = st.one_of(gen.st_program(N, 6), st.lists(st.integers(0, 3).flatmap(lambda i: rnd if i == 0 else gen.st_gate(N)), max_size=5))
         return st.fixed_dictionaries({'N': st.just(N), 'state': gen.st_state(N), 'prog': prog, 'ckind': st.sampled_from(['prog', 'prog', 'prog', 'onsite', 'global', 'brickwall']),
                                       'depth': st.integers(1, 3), 'seed': gen.st_seed(), 'n': st.integers(0, 3),
-                                      'cls': st.sampled_from(['CliffordCircuit', 'Circuit']), 'compile': st.booleans()})
+                                      'cls': st.sampled_from(['CliffordCircuit', 'Circuit']), 'compile': st.booleans(), 'late': st.sampled_from([0, 0, 1, 2, 3])})
     return st.integers(1, hiN).flatmap(inner)
 
 
